@@ -614,9 +614,21 @@ function describeIndexObjectMember(
   ctx: DescribeContext,
   key: Runtype,
   value: Runtype,
+  standsAlone: boolean,
 ): { docText?: string; member: string } {
-  // an index signature, so that it can stand next to named properties (a mapped type member cannot)
-  return describeObjectMember(ctx, `[key: ${describeTypeExpr(ctx, key)}]`, value);
+  if (standsAlone) {
+    // the only member: a mapped type, which can also carry the optional mark
+    return describeObjectMember(ctx, `[K in ${describeTypeExpr(ctx, key)}]`, value);
+  }
+  // next to other members only an index signature is allowed (a mapped type member is not), and an
+  // index signature cannot be optional: spell the optional value type out
+  const description = value.describe(ctx);
+  const valueExpr =
+    value instanceof OptionalFieldRuntype ? `(${description.typeExpr} | undefined)` : description.typeExpr;
+  return {
+    docText: description.docText,
+    member: `[key: ${describeTypeExpr(ctx, key)}]: ${valueExpr}`,
+  };
 }
 
 function renderObjectMember(member: { docText?: string; member: string }): string {
@@ -2022,8 +2034,9 @@ export class ObjectRuntype extends BaseRuntype {
       return describeObjectMember(ctx, describePropertyName(k), it);
     });
 
+    const indexStandsAlone = sortedKeys.length === 0 && this.indexedPropertiesParser.length === 1;
     const indexProps = this.indexedPropertiesParser.map(({ key, value }) =>
-      describeIndexObjectMember(ctx, key, value),
+      describeIndexObjectMember(ctx, key, value, indexStandsAlone),
     );
 
     const members = [...props, ...indexProps];
